@@ -89,3 +89,15 @@ Theorem C20_float64_cancellation_partial : forall x : f64,
   BinarySingleNaN.is_finite x = true -> is_zero64 (add64 x (neg64 x)) = true.
 Proof. exact add_opp_is_zero. Qed.
 Print Assumptions C20_float64_cancellation_partial.
+
+(* the singular clause in floats, first instance (partial: columns 1 = 2; the other repeated / zero column
+   layouts remain model-evaluated): the float64 determinant of EVERY matrix whose first two columns coincide,
+   evaluated as Matrix3.Inverse evaluates it, is a zero - so Inverse takes its documented panic (None) -
+   provided four named intermediate values are finite (no overflow; always so for entries in [-4, 4]) *)
+Theorem C20_singular_float64_repeated_column_partial : forall a b : vecF,
+  let X := sub64 (mul64 (v1 a) (v2 b)) (mul64 (v1 b) (v2 a)) in
+  BinarySingleNaN.is_finite (v0 a) = true -> BinarySingleNaN.is_finite (v0 b) = true -> BinarySingleNaN.is_finite X = true ->
+  BinarySingleNaN.is_finite (mul64 (v0 a) X) = true -> BinarySingleNaN.is_finite (mul64 (v1 a) (v2 a)) = true ->
+  is_zero64 (detF (M a a b)) = true /\ inverseF (M a a b) = None.
+Proof. exact det_repeated_first_float. Qed.
+Print Assumptions C20_singular_float64_repeated_column_partial.
